@@ -7,7 +7,8 @@ import SageModel.Model.C10
 /-! Driver ops for C18.
 
 ```
-tmt <plex> ppmLo ppmHi level [n spectrum…] | [n row…]          rows sorted as text on both sides
+tmt <plex> ppmLo ppmHi level [n spectrum…] | [n row…]          rows sorted as text on both sides; pools 1/2/16 (see handleTmt)
+tmtpool [k threads…] <plex> ppmLo ppmHi level [n spectrum…] | k × [n row…]   one row set per rayon pool size
     plex     = t6 | t10 | t11 | t16 | t18 | u [n f32…]
     spectrum = level id(hex) file_id inj(f32) [n (0 | 1 ref(hex))…] [n (mass(f32) intensity(f32))…]
     row      = key(hex) file_id inj(f32) [n f32…]
@@ -90,6 +91,25 @@ def rowQ (r : Row Nat) : Option (Row Rat) := do
 
 def labelsBits (p : Plex Nat) : List Nat := reporterMasses tablesBits p
 
+/-- the executable spec of `quantify` on one set of implementation rows (exact rationals, m/z space) -/
+def tmtSpecOn (plex : Plex Nat) (lo hi level : Nat) (spectra : List (Spectrum Nat)) (irows : List (Row Nat)) : String :=
+  let nExpected := if level == 1 then 0 else (spectra.filter (fun s => s.level == level)).length
+  if irows.length != nExpected then "bad:row_count" else
+  -- pass-through fields, compared as bit patterns: key, file id, injection time
+  let keyOk (s : Spectrum Nat) (r : Row Nat) : Bool :=
+    r.specId == (if level == 2 then s.id else firstRef s) && r.fileId == s.fileId && r.injTime == s.injTime
+  let atLevel := if level == 1 then [] else spectra.filter (fun s => s.level == level)
+  if !matchRows keyOk atLevel irows then "bad:row_key" else
+  if irows.any (fun r => r.peaks.length != (labelsBits plex).length) then "bad:channel_count" else
+  match ratsOf (labelsBits plex), ratOfF32Bits lo, ratOfF32Bits hi, spectra.mapM spectrumQ, irows.mapM rowQ with
+  | some labelsQ, some loQ, some hiQ, some spectraQ, some rowsQ =>
+    if specOk Sage.Gen.PROTON loQ hiQ (guardOf Sage.Gen.PROTON) spectraQ labelsQ level rowsQ then "ok"
+    else "bad:channel_value"
+  | _, _, _, _, _ => "na"   -- NaN/∞/negative intensities: outside the property's domain
+
+/-- `tmt`: the harness runs `quantify` in rayon pools of 1, 2 and 16 threads; the reply is the pool-1 row set when
+    all agree, `threaddep <threads> <rows>` (the first differing set) otherwise. The model has no notion of threads:
+    every pool must give the definition's rows. -/
 def handleTmt (args impl : List String) : Option Reply := do
   let (plex, lo, hi, level, spectra) ← run (do
     let p ← plexP; let lo ← nat; let hi ← nat; let lv ← nat; let s ← list spectrumP
@@ -98,24 +118,55 @@ def handleTmt (args impl : List String) : Option Reply := do
   let rows := quantify protonF (spectra.map (Spectrum.mapNum f32OfBits)) labels
     (.ppm (f32OfBits lo) (f32OfBits hi)) level
   let model := renderRows rows
-  -- the executable spec on the implementation's rows (exact rationals, m/z space)
   let spec : String :=
-    match run (list rowP) impl with
+    match impl with
+    | "threaddep" :: _ :: rest =>
+      -- some pool disagrees with pool 1: say which clause the differing set breaks, else that it depends on threads
+      match run (list rowP) rest with
+      | none => "bad:thread_dependent"
+      | some irows =>
+        let v := tmtSpecOn plex lo hi level spectra irows
+        if v.startsWith "bad" then v else "bad:thread_dependent"
+    | _ =>
+      match run (list rowP) impl with
+      | none => if impl == ["panic"] then "bad:panic" else "na"
+      | some irows => tmtSpecOn plex lo hi level spectra irows
+  pure (exact model (" ".intercalate impl) spec)
+
+/-- all row sets of a `tmtpool` reply: `k` times `[n row…]` -/
+def rowSetsP : Nat → P (List (List (Row Nat)))
+  | 0 => pure []
+  | k + 1 => do
+    let x ← list rowP
+    let xs ← rowSetsP k
+    pure (x :: xs)
+
+/-- `tmtpool [k threads…] <tmt arguments>`: `quantify` inside an explicit rayon pool of each listed size; the reply is
+    one row set per pool. Spec: EVERY pool's rows are the definition's rows (first failing clause, e.g.
+    `bad:channel_value` when a value leaks from another spectrum handled by the same rayon job); if every set passes
+    on its own but two sets differ: `bad:thread_dependent`. -/
+def handlePool (args impl : List String) : Option Reply := do
+  let (pools, plex, lo, hi, level, spectra) ← run (do
+    let ps ← list nat
+    let p ← plexP; let lo ← nat; let hi ← nat; let lv ← nat; let s ← list spectrumP
+    pure (ps, p, lo, hi, lv, s)) args
+  let labels := (labelsBits plex).map f32OfBits
+  let rows := quantify protonF (spectra.map (Spectrum.mapNum f32OfBits)) labels
+    (.ppm (f32OfBits lo) (f32OfBits hi)) level
+  let one := renderRows rows
+  let model := " ".intercalate (pools.map fun _ => one)
+  let spec : String :=
+    match run (rowSetsP pools.length) impl with
     | none => if impl == ["panic"] then "bad:panic" else "na"
-    | some irows =>
-      let nExpected := if level == 1 then 0 else (spectra.filter (fun s => s.level == level)).length
-      if irows.length != nExpected then "bad:row_count" else
-      -- pass-through fields, compared as bit patterns: key, file id, injection time
-      let keyOk (s : Spectrum Nat) (r : Row Nat) : Bool :=
-        r.specId == (if level == 2 then s.id else firstRef s) && r.fileId == s.fileId && r.injTime == s.injTime
-      let atLevel := if level == 1 then [] else spectra.filter (fun s => s.level == level)
-      if !matchRows keyOk atLevel irows then "bad:row_key" else
-      if irows.any (fun r => r.peaks.length != (labelsBits plex).length) then "bad:channel_count" else
-      match ratsOf (labelsBits plex), ratOfF32Bits lo, ratOfF32Bits hi, spectra.mapM spectrumQ, irows.mapM rowQ with
-      | some labelsQ, some loQ, some hiQ, some spectraQ, some rowsQ =>
-        if specOk Sage.Gen.PROTON loQ hiQ (guardOf Sage.Gen.PROTON) spectraQ labelsQ level rowsQ then "ok"
-        else "bad:channel_value"
-      | _, _, _, _, _ => "na"   -- NaN/∞/negative intensities: outside the property's domain
+    | some sets =>
+      let verdicts := sets.map (tmtSpecOn plex lo hi level spectra)
+      match verdicts.find? (·.startsWith "bad") with
+      | some v => v
+      | none =>
+        let rendered := sets.map fun rs => rs.map fun r => (r.specId, r.fileId, r.injTime, r.peaks)
+        match rendered with
+        | [] => "ok"
+        | r0 :: rest => if rest.all (· == r0) then (if verdicts.all (· == "ok") then "ok" else "na") else "bad:thread_dependent"
   pure (exact model (" ".intercalate impl) spec)
 
 def tolP : P (Tol Float32) := do
@@ -287,6 +338,7 @@ def handleRun (args impl : List String) : Option Reply := do
     | none => "panic"
     | some rows => renderRows rows
   let spec : String :=
+    if impl.head? == some "threaddep" then "bad:thread_dependent" else   -- pools of 1 and 3 threads disagree
     match run (list rowP) impl with
     | none => if impl == ["panic"] then "bad:panic" else "na"
     | some irows =>
@@ -327,6 +379,7 @@ def handle (op : String) (args impl : List String) : Option Reply :=
   | "tmtconsts" => handleConsts args impl
   | "tmtguard" => handleGuard args impl
   | "tmtproc" => handleProc args impl
+  | "tmtpool" => handlePool args impl
   | "tmtrun" => handleRun args impl
   | _ => none
 
